@@ -363,9 +363,9 @@ def dpss(N, NW=None, k=None):
         else:
             # the very first samples of a long, wide-band taper are smaller than
             # the round-off of the eigen-solver: read the sign of the leading lobe
-            # from the first sample that carries a noticeable share of the energy
+            # from the first sample that is not negligible (1% of the largest one)
             w = tapers[:, i]
-            lobe = w[w * w > max(1e-7, 1. / N) * np.sum(w * w)]
+            lobe = w[np.abs(w) > 1e-2 * np.max(np.abs(w))]
             if len(lobe) > 0 and lobe[0] < 0:
                 tapsum[i] *= -1
                 tapers[:, i] *= -1
